@@ -1,14 +1,153 @@
-(* Properties_C05.v — CPC sketch is an exact coupon bit matrix; union ORs row-folded matrices.
-   Only statements, closed by [exact]; proofs live in Cpc*Proofs.v. *)
-From Coq Require Import ZArith NArith List Bool Lia.
-From DS Require Import Word Murmur3 RunnerLib CpcDefs.
+(* Properties_C05.v — CPC sketch is an exact coupon bit matrix (every flavor, across promotion and every window
+   move); the surprising-value table refines a finite set; the low-level compressor round-trips.
+   Only statements, closed by [exact]; proofs live in CpcTableProofs.v, CpcSketchInv.v, CpcProofs.v,
+   CpcCodecTables.v, CpcCodecProofs.v. All statements are partial-correctness statements about the executable
+   model ([Some] = the C++ code neither throws nor runs into undefined behaviour) and hold for EVERY lg_k, every
+   seed and every sequence of row_col pairs (arbitrary hash functions), not only for Murmur-derived ones. *)
+From Coq Require Import ZArith NArith List Bool Lia Sorted.
+From DS.gen Require Import CpcTablesGen.
+From DS Require Import Word Murmur3 RunnerLib CpcDefs CpcTableProofs CpcBits CpcSketchInv CpcProofs
+     CpcCodecTables CpcCodecDefs CpcCodecProofs.
 Import ListNotations.
 Local Open Scope N_scope.
 
-Theorem C05_empty_flavor_iff : forall l c, determine_flavor l c = FL_EMPTY <-> c = 0.
-Proof.
-  intros l c. unfold determine_flavor. destruct (N.eqb_spec c 0); [tauto|].
-  split; [|tauto]. repeat match goal with |- context [if ?b then _ else _] => destruct b end; discriminate.
-Qed.
+(* u32_table: any sequence of maybe_insert / maybe_delete from an empty table (any lg_size, any num_valid_bits,
+   across every growth and shrink rebuild and every delete-by-reinsertion) holds exactly the abstract set, returns
+   exactly the novelty flags, stores no item twice and counts correctly *)
+Theorem C05_table_refines_set : forall lg nvb ops t bs,
+  (forall o, In o ops -> op_arg o <> EMPTY) ->
+  tab_run (t_new lg nvb) ops = Some (t, bs) ->
+  (forall y, In y (t_items t) <-> In y (fst (set_run [] ops))) /\ bs = snd (set_run [] ops) /\
+  NoDup (t_items t) /\ t_num t = N.of_nat (length (t_items t)).
+Proof. exact tab_refines. Qed.
 
-Print Assumptions C05_empty_flavor_iff.
+Section AnyRun.
+  Variables (l sd : N) (rcs : list N) (s : sketch).
+  Hypothesis Hv : valid_rcs l rcs.                 (* row < 2^l, col < 64, pair <> UINT32_MAX *)
+  Hypothesis Hrun : sk_run l sd rcs = Some s.
+
+  (* the matrix rebuilt by build_bit_matrix is exactly the matrix with the offered coupons set *)
+  Theorem C05_matrix_exact : exists m, build_bit_matrix s = Some m /\ m = spec_matrix l rcs.
+  Proof. exact (run_matrix l sd rcs s Hv Hrun). Qed.
+
+  (* num_coupons = number of distinct pairs = popcount of the matrix; validate() holds *)
+  Theorem C05_count_distinct : ncoup s = N.of_nat (length (distinct rcs)).
+  Proof. exact (run_count l sd rcs s Hv Hrun). Qed.
+
+  Theorem C05_count_popcount : ncoup s = sum_popcount (spec_matrix l rcs).
+  Proof. exact (run_popcount l sd rcs s Hv Hrun). Qed.
+
+  Theorem C05_validate : validate s = Some true.
+  Proof. exact (run_validate l sd rcs s Hv Hrun). Qed.
+
+  (* window_offset is always determine_correct_offset(lg_k, num_coupons) *)
+  Theorem C05_offset_correct : woff s = determine_correct_offset l (ncoup s) /\ woff s <= 56.
+  Proof. exact (run_offset l sd rcs s Hv Hrun). Qed.
+
+  (* every column below first_interesting_column is full: the speed filter discards no novel coupon *)
+  Theorem C05_fic_sound : forall r c, r < 2 ^ l -> c < fic s -> mem (rcp r c) rcs = true.
+  Proof. exact (run_fic_sound l sd rcs s Hv Hrun). Qed.
+
+  (* the window exists exactly from 3K/32 coupons on (flavor >= HYBRID) and has K bytes *)
+  Theorem C05_flavor_window : lgk s = l /\ (window s = [] <-> 32 * ncoup s < 3 * 2 ^ l) /\
+                              (window s <> [] -> length (window s) = N.to_nat (2 ^ l)).
+  Proof. exact (run_flavor l sd rcs s Hv Hrun). Qed.
+
+  (* representation: table without duplicates, and each matrix bit is the window bit inside the window and
+     the default pattern (ones before the window, zeros after) flipped by table membership outside *)
+  Theorem C05_representation : NoDup (t_items (table s)) /\ t_num (table s) = N.of_nat (length (t_items (table s))) /\
+    forall r c, r < 2 ^ l -> c < 64 -> mem (rcp r c) rcs = bitF s r c.
+  Proof. exact (run_table_set l sd rcs s Hv Hrun). Qed.
+End AnyRun.
+
+(* one update from ANY state satisfying the invariant (e.g. a deserialized or merged sketch), any flavor *)
+Theorem C05_update_refines : forall l s hist rc s', SInv l s hist -> rc < 2 ^ (6 + l) -> rc <> EMPTY ->
+  row_col_update s rc = Some s' -> SInv l s' (rc :: hist).
+Proof. exact step_rcu. Qed.
+
+(* a state rebuilt from a bit matrix (move_window, and get_result_from_bit_matrix of the union) represents it *)
+Theorem C05_rebuilt_from_matrix : forall l hist m off t0 win t' ored sd mg nc,
+  length m = N.to_nat (2 ^ l) ->
+  (forall r c, r < 2 ^ l -> c < 64 -> bit m r c = has hist r c) ->
+  (forall r c, 64 <= c -> bit m r c = false) ->
+  valid l hist -> off <= 56 -> TInv t0 -> t_items t0 = [] ->
+  rows_loop m 0 off t0 0 = Some (win, t', ored) ->
+  Core l (mkS l sd mg nc t' win off (if off <? ctz64 ored then off else ctz64 ored)) hist.
+Proof. exact rebuilt_core. Qed.
+
+(* --- compression (second stage): the low-level codec of cpc_compressor_impl.hpp, on the TRANSLATED tables --- *)
+Theorem C05_bytes_codec_rt : forall ti bytes, (ti < 22)%nat ->
+  Forall (fun b => b < 256) bytes -> N.of_nat (length bytes) < 2 ^ 32 ->
+  uncompress_bytes (nth ti byte_decoding_tables []) (N.of_nat (length bytes))
+    (compress_bytes (nth ti encoding_tables_for_high_entropy_byte []) bytes) = Some bytes.
+Proof. exact bytes_codec_rt. Qed.
+
+Theorem C05_pairs_codec_rt : forall nbb pairs words, nbb <= 30 ->
+  StronglySorted N.lt pairs -> Forall (fun p => p < 2 ^ 32) pairs ->
+  compress_pairs pairs nbb = Some words -> N.of_nat (length words) < 2 ^ 32 ->
+  uncompress_pairs (N.of_nat (length pairs)) nbb words = Some pairs.
+Proof. exact pairs_codec_rt. Qed.
+
+Theorem C05_pairs_codec_total : forall nbb pairs, nbb <= 32 ->
+  StronglySorted N.lt pairs -> Forall (fun p => p < 2 ^ 32) pairs ->
+  exists words, compress_pairs pairs nbb = Some words.
+Proof. exact pairs_codec_total. Qed.
+
+(* the output never exceeds the pre-sized buffer safe_length_for_compressed_pair_buf (padding arithmetic included) *)
+Theorem C05_pairs_codec_len : forall nbb k pairs words, nbb <= 32 ->
+  StronglySorted N.lt pairs -> Forall (fun p => p < 2 ^ 32) pairs ->
+  Forall (fun p => N.shiftr p 6 <= k) pairs ->
+  N.of_nat (length pairs) * (13 + nbb) + N.shiftr k nbb + 10 < 2 ^ 32 ->
+  compress_pairs pairs nbb = Some words ->
+  N.of_nat (length words) <= safe_length_for_compressed_pair_buf k (N.of_nat (length pairs)) nbb.
+Proof. exact pairs_codec_len. Qed.
+
+Theorem C05_sliding_window_rt : forall lg_k c win, 4 <= lg_k < 32 ->
+  N.of_nat (length win) = 2 ^ lg_k -> Forall (fun b => b < 256) win ->
+  uncompress_sliding_window (compress_sliding_window win lg_k c) lg_k c = Some win.
+Proof. exact sliding_window_rt. Qed.
+
+Theorem C05_surprising_values_rt : forall lg_k pairs words, lg_k <= 30 ->
+  StronglySorted N.lt pairs -> Forall (fun p => p < 2 ^ 32) pairs ->
+  N.of_nat (length pairs) <= 2 ^ 31 ->
+  compress_surprising_values pairs lg_k = Some words ->
+  uncompress_surprising_values words (N.of_nat (length pairs)) lg_k = Some pairs.
+Proof. exact surprising_values_rt. Qed.
+
+(* with 64-bit products (fixes/05_cpc_pseudo_phase_overflow.patch) a SLIDING sketch always gets a steady-state
+   phase, so serialize() cannot throw "unexpected pseudo phase"; the old 32-bit code is refuted in Regression_cpc.v *)
+Theorem C05_sliding_phase_lt16 : forall lg_k c, 4 <= lg_k -> 27 * 2 ^ lg_k <= 8 * c ->
+  determine_pseudo_phase lg_k c < 16.
+Proof. exact sliding_phase_lt16. Qed.
+
+(* non-vacuity: lg_k = 4, all 16 rows x columns 0..3 (64 coupons > 27K/8 = 54): the run goes through SPARSE,
+   promotion, HYBRID, PINNED and one window move, and ends SLIDING with offset 1 *)
+Definition ex_rcs : list N := flat_map (fun c => map (fun r => rcp r c) [0;1;2;3;4;5;6;7;8;9;10;11;12;13;14;15]) [0;1;2;3].
+Example C05_nonvacuous :
+  exists s, sk_run 4 9001 ex_rcs = Some s /\ ncoup s = 64 /\ woff s = 1 /\ fic s = 1 /\
+            determine_flavor 4 (ncoup s) = FL_SLIDING /\ validate s = Some true.
+Proof. vm_compute. eexists. repeat split; reflexivity. Qed.
+
+Example C05_table_nonvacuous :
+  exists t bs, tab_run (t_new 2 10) [TIns 5; TIns 9; TIns 5; TDel 9; TDel 7; TIns 1; TIns 2; TIns 3; TIns 4] = Some (t, bs) /\
+               bs = [true; true; false; true; false; true; true; true; true] /\ t_lg t = 3.
+Proof. vm_compute. eexists. eexists. repeat split; reflexivity. Qed.
+
+Print Assumptions C05_table_refines_set.
+Print Assumptions C05_matrix_exact.
+Print Assumptions C05_count_distinct.
+Print Assumptions C05_count_popcount.
+Print Assumptions C05_validate.
+Print Assumptions C05_offset_correct.
+Print Assumptions C05_fic_sound.
+Print Assumptions C05_flavor_window.
+Print Assumptions C05_representation.
+Print Assumptions C05_update_refines.
+Print Assumptions C05_rebuilt_from_matrix.
+Print Assumptions C05_bytes_codec_rt.
+Print Assumptions C05_pairs_codec_rt.
+Print Assumptions C05_pairs_codec_total.
+Print Assumptions C05_pairs_codec_len.
+Print Assumptions C05_sliding_window_rt.
+Print Assumptions C05_surprising_values_rt.
+Print Assumptions C05_sliding_phase_lt16.
